@@ -72,7 +72,7 @@ ANCHORS = ["glue.core.data:Data.add_component", "glue.core.data:Data.remove_comp
            "glue.core.data:Data._check_can_add", "glue.core.component_id:ComponentID.label"]
 
 MODES = ["nohub", "barehub", "collection", "collection_linked"]
-N_BLOCKS = {"quick": 400, "thorough": 24000}
+N_BLOCKS = {"quick": 320, "thorough": 24000}
 HIST_PER_BLOCK = 6
 
 
@@ -89,10 +89,83 @@ def labels(seq):
     return [getattr(c, "label", repr(c)) for c in seq]
 
 
+import collections
+LOOKUP_CASES = collections.Counter()      # tallies of the lookup situations met by invariants(); flushed per case
+
+
 class Recorder(HubListener):
+    """Catch-all listener.  Besides logging it *reads* the sender while the message is being delivered: outside a
+    harness delay block an announced appearance must already be visible and an announced disappearance already done."""
+
     def __init__(self, hub):
         self.log = []
-        hub.subscribe(self, M.Message, handler=self.log.append)
+        self.in_block = False
+        self.early = []
+        hub.subscribe(self, M.Message, handler=self.receive)
+
+    def receive(self, msg):
+        self.log.append(msg)
+        if self.in_block:
+            return
+        try:
+            if type(msg) is M.DataAddComponentMessage:
+                if not is_in(msg.component_id, msg.sender.components):
+                    self.early.append(("appearance_announced_before_it_is_visible", msg.component_id.label))
+            elif type(msg) is M.DataRemoveComponentMessage:
+                if is_in(msg.component_id, msg.sender.components):
+                    self.early.append(("disappearance_announced_while_still_visible", msg.component_id.label))
+            elif type(msg) is M.DataReorderComponentMessage:
+                if ids(list(msg.component_ids)) != ids(msg.sender.components):
+                    self.early.append(("reorder_announced_with_list_that_is_not_current", None))
+            elif type(msg) is M.ComponentReplacedMessage:
+                if is_in(msg.old, msg.sender.components) or not is_in(msg.new, msg.sender.components):
+                    self.early.append(("replacement_announced_before_it_is_visible", msg.new.label))
+        except Exception as e:      # a read during delivery failed
+            self.early.append(("read_during_delivery_raised:" + type(e).__name__, None))
+
+
+class Reactor(HubListener):
+    """Re-entrant listener: when armed, reacts to the announcement of a new stored numeric attribute by calling back
+    into the dataset (rename it / remove it / derive from it / read it) while the hub is still delivering."""
+
+    def __init__(self, world):
+        self.world = world
+        self.action = None
+        self.target = None
+        self.done = []
+        world.hub.subscribe(self, M.DataAddComponentMessage, handler=self.receive)
+
+    def arm(self, action, model):
+        self.action, self.target, self.done = action, model, []
+
+    def disarm(self):
+        self.action = None
+        out, self.done = self.done, []
+        return out
+
+    def receive(self, msg):
+        if self.action is None or msg.sender is not self.target.d:
+            return
+        m, d, cid = self.target, msg.sender, msg.component_id
+        if not is_in(cid, d.main_components) or not _is_plain_numeric(d, cid):
+            return
+        action, self.action = self.action, None
+        if action == "rename":
+            cid.label = m.fresh("rr")
+            self.done.append(("rename", cid, m))
+        elif action == "remove":
+            d.remove_component(cid)
+            self.done.append(("remove", cid, m))
+        elif action == "add_derived":
+            d.add_component_link(cid * 2, m.fresh("rder"))
+            new = d.components[-1]
+            m.derived.append(new)
+            m.deps[id(new)] = [cid]
+            self.done.append(("add_derived", new, m))
+        else:
+            shp = np.shape(d.get_data(cid))
+            ok = tuple(shp) == tuple(d.shape) and d.find_component_id(cid) is cid
+            self.done.append(("read" if ok else "read_inconsistent", cid, m))
 
 
 class Stop(Exception):
@@ -169,11 +242,12 @@ class Model:
 def values(rng, shape, kind="num"):
     n = int(np.prod(shape)) if len(shape) else 1
     if kind == "num":
-        return np.array([round(rng.uniform(-5, 5), 2) for _ in range(n)], dtype=float).reshape(shape)
+        scale = rng.choice([1.0, 1.0, 1.0, 1e-10, 1e12])      # magnitudes must not matter to structure
+        return (np.array([round(rng.uniform(-5, 5), 2) for _ in range(n)], dtype=float) * scale).reshape(shape)
     if kind == "int":
         return np.array([rng.randint(-3, 9) for _ in range(n)], dtype=int).reshape(shape)
     if kind == "cat":
-        return np.array([rng.choice(["a", "b", "cc"]) for _ in range(n)]).reshape(shape)
+        return np.array([rng.choice(["a", "b", "cc"]) for _ in range(n)], dtype="U2").reshape(shape)
     if kind == "date":
         return (np.datetime64("2020-01-01") + np.array([rng.randint(0, 40) for _ in range(n)]).astype("timedelta64[D]")).reshape(shape)
     raise ValueError(kind)
@@ -278,6 +352,7 @@ class World:
                     except Exception:
                         ctx.count("setup_link_failed")
         self.rec = Recorder(self.hub) if self.hub is not None else None
+        self.reactor = Reactor(self) if self.hub is not None else None
 
     def build(self, rng, start, label):
         if start == "empty":
@@ -286,6 +361,16 @@ class World:
             return Data(label=label, coords=IdentityCoordinates(n_dim=rng.choice([1, 2])))
         nd = {"1d": 1, "2d": 2, "3d": 3}[start[:2]]
         shape = rand_shape(rng, nd)
+        special = start.split(":")[1] if ":" in start else None
+        start = start.split(":")[0]
+        if special == "zero_rows":
+            shape = (0,)
+        elif special == "zero_axis":
+            shape = (rng.randint(1, 3), 0)
+        elif special == "single":
+            shape = (1,)
+        elif special == "long":
+            shape = (120,)
         ck = start[3:]
         d = Data(label=label, coords=make_coords(rng, nd, ck))
         d.add_component(values(rng, shape), "a")
@@ -294,11 +379,16 @@ class World:
             d.add_component(values(rng, shape, "cat"), "c")
         if rng.random() < 0.3:
             d.add_component(values(rng, shape, "date"), "t")
+        if special == "wide":
+            for k in range(20):
+                d.add_component(values(rng, shape, "int"), "w%02d" % k)
         return d
 
 
 START_KINDS = ["empty", "empty_coords", "1d_none", "1d_identity", "1d_affine", "2d_none", "2d_identity", "2d_affine",
-               "2d_affine_coupled", "3d_none", "3d_identity", "3d_affine_coupled"]
+               "2d_affine_coupled", "3d_none", "3d_identity", "3d_affine_coupled",
+               # scale / extreme starts: no rows, a zero-length axis, a single element, many rows, many columns
+               "1d_none:zero_rows", "2d_identity:zero_axis", "1d_identity:single", "1d_none:long", "2d_none:wide"]
 
 
 # ---------------------------------------------------------------- snapshots
@@ -394,12 +484,23 @@ def invariants(m):
             if r is not match[0]:
                 out.append(("lookup_misses_unique_label", {"component_kind": m.kind_of(match[0]),
                                                            "returned": "none" if r is None else "other"}, [lab, repr(r)]))
+            LOOKUP_CASES["unique_label"] += 1
         else:
             if r is not None and not is_in(r, match):
                 out.append(("lookup_returns_non_match", {}, [lab, repr(r)]))
             mains = [c for c in match if is_in(c, d.main_components)]
+            ders = [c for c in match if is_in(c, d.derived_components)]
+            coor = [c for c in match if not is_in(c, mains) and not is_in(c, ders)]
+            case = "main%s_derived%s_coord%s" % tuple(min(len(x), 2) for x in (mains, ders, coor))
+            LOOKUP_CASES["repeated_label:" + case] += 1
             if len(mains) == 1 and r is not mains[0]:
-                out.append(("lookup_precedence_main_first", {"returned": "none" if r is None else m.kind_of(r)}, [lab, repr(r)]))
+                out.append(("lookup_precedence_main_first", {"returned": "none" if r is None else m.kind_of(r), "case": case},
+                            [lab, repr(r)]))
+            # documented search order main > derived > coordinate: with no stored attribute of that name a single
+            # derived one is the answer even if a coordinate attribute carries the label too
+            if len(mains) == 0 and len(ders) == 1 and r is not ders[0]:
+                out.append(("lookup_precedence_derived_before_coordinate", {"returned": "none" if r is None else m.kind_of(r), "case": case},
+                            [lab, repr(r)]))
         try:
             viaid = d.id[lab]
             if r is None or viaid is not r:
@@ -412,6 +513,14 @@ def invariants(m):
     try:
         if d.find_component_id("__no_such_label__") is not None:
             out.append(("lookup_invents_match", {}, None))
+        # labels that only share a prefix / differ in case or blanks are different labels
+        for lab in sorted(set(labs))[:2]:
+            for near in (lab + " ", lab[:-1], lab.upper() if lab.upper() != lab else lab.lower(), " " + lab):
+                if near not in labs and near != "":
+                    LOOKUP_CASES["near_miss_probe"] += 1
+                    r = d.find_component_id(near)
+                    if r is not None and is_in(r, comps):
+                        out.append(("lookup_matches_different_label", {}, [near, r.label]))
         for c in comps[:3]:
             if d.find_component_id(c) is not c:
                 out.append(("lookup_by_identifier_misses", {"component_kind": m.kind_of(c)}, c.label))
@@ -528,17 +637,30 @@ def ledger(world, touched, before, msgs, expect, composite):
                     out.append(("reorder_announced_twice", tgt, len(reorders)))
                 if ids(list(reorders[-1].component_ids)) != ids(after):
                     out.append(("reorder_message_carries_wrong_list", tgt, [labels(reorders[-1].component_ids), labels(after)]))
-        # rename
+        # rename: every effective rename of an identifier is announced, none is invented
         exp_ren = ex.get("rename", [])
         for c in renames:
             if not any(c is e for e, _ in exp_ren):
                 out.append(("rename_announced_but_not_renamed", tgt, c.label))
+        seen_r = []
         for c, how in exp_ren:
+            if is_in(c, seen_r):
+                continue
+            seen_r.append(c)
             n = sum(1 for x in renames if x is c)
-            if (how == "yes" and n != 1 and not composite) or (how == "yes" and n < 1) or (how == "maybe" and n > 1 and not composite):
-                out.append(("rename_announcement_count", dict(tgt, n=min(n, 2)), c.label))
-            if how == "maybe":
-                ctx.count("rename_same_label_announced" if n else "rename_same_label_silent")
+            n_yes = sum(1 for e, h in exp_ren if e is c and h == "yes")
+            n_all = sum(1 for e, h in exp_ren if e is c)
+            if n < n_yes or n > n_all:
+                out.append(("rename_announcement_count", dict(tgt, n=min(n, 3), expected_min=min(n_yes, 3), expected_max=min(n_all, 3)), c.label))
+            if n_all > n_yes:
+                ctx.count("rename_same_label_announced" if n > n_yes else "rename_same_label_silent")
+        # every call that changed the order is announced, also inside a delay block
+        if "n_reorders" in ex and len(reorders) != ex["n_reorders"]:
+            out.append(("reorder_announcement_count", dict(tgt, announced=min(len(reorders), 3), expected=min(ex["n_reorders"], 3),
+                                                           in_block=composite), None))
+        if ex.get("n_numerical_min", 0) > len(numer):
+            out.append(("value_change_announcement_count", dict(tgt, announced=min(len(numer), 3),
+                                                                expected_min=min(ex["n_numerical_min"], 3)), None))
         # values
         nx = ex.get("numerical", "no")
         if nx == "yes" and not numer:
@@ -575,9 +697,9 @@ class Op:
         self.sigx = sigx or {}      # further structural classification of the call, merged into violation signatures
 
 
-def gen_op(world, rng, allow_hostile=True):
+def gen_op(world, rng, allow_hostile=True, force_kind=None, force_m=None):
     """Draw one operation for a random dataset of the world."""
-    m = rng.choice(world.models)
+    m = force_m or rng.choice(world.models)
     d = m.d
     comps = list(d.components)
     mains = list(d.main_components)
@@ -589,7 +711,7 @@ def gen_op(world, rng, allow_hostile=True):
 
     table = [("add", 16), ("add_derived", 10), ("remove", 12), ("reorder", 9), ("rename", 8), ("update_id", 8),
              ("update_components", 8), ("refresh", 10), ("coords", 7), ("label", 3)]
-    kind = rng.choices([k for k, _ in table], [w for _, w in table])[0]
+    kind = force_kind or rng.choices([k for k, _ in table], [w for _, w in table])[0]
 
     if not comps and kind not in ("add", "coords", "label", "refresh", "remove", "reorder"):
         kind = "add"
@@ -817,6 +939,9 @@ def gen_op(world, rng, allow_hostile=True):
             cid = rng.choice([c for c in m.derived if is_in(c, comps)])
         elif v == "input_of_derived":
             cid = rng.choice(inputs)
+            if r() < 0.6:
+                # prefer the root of the deepest cascade
+                cid = max(inputs, key=lambda c: m.depth_below(c, m.closure(c)))
         elif v == "pixel":
             cid = rng.choice(pix)
         else:
@@ -975,7 +1100,8 @@ def gen_op(world, rng, allow_hostile=True):
             return Op("update_id", v, m, lambda: d.update_id(old, new), expect="any", desc=[old.label, new.label], post=post_onto)
         if v == "leaf":
             old = rng.choice(leafs)
-            new = ComponentID(lab)
+            # now and then an equal-looking identifier: same label, other object
+            new = ComponentID(lab if r() < 0.75 else old.label)
         elif v == "input_of_derived":
             old = rng.choice(inputs)
             new = ComponentID(lab)
@@ -1003,8 +1129,11 @@ def gen_op(world, rng, allow_hostile=True):
     # ---------------------------------------------------------------- update_components
     if kind == "update_components":
         plain = [c for c in mains if _is_plain_numeric(d, c)]
-        v = rng.choices(["one_by_id", "two_by_id", "by_component", "wrong_shape", "second_wrong_shape", "derived_target", "empty_mapping"],
-                        [6, 3, 3, 3, 2, 2, 1])[0]
+        v = rng.choices(["one_by_id", "two_by_id", "by_component", "wrong_shape", "second_wrong_shape", "derived_target", "empty_mapping",
+                         "dtype_layout", "same_size_other_shape", "list_values"],
+                        [5, 3, 3, 3, 2, 2, 1, 4, 3, 1])[0]
+        if v == "same_size_other_shape" and same_size_other_shape(shape) is None:
+            v = "wrong_shape"
         if not plain and v != "empty_mapping":
             v = "empty_mapping"
         if v == "two_by_id" and len(plain) < 2:
@@ -1019,6 +1148,20 @@ def gen_op(world, rng, allow_hostile=True):
         if v == "one_by_id":
             c = rng.choice(plain)
             mp = {c: values(rng, shape)}
+        elif v == "dtype_layout":
+            c = rng.choice(plain)
+            vals, dt, lay = fancy_values(rng, shape)
+            world.ctx.count("update_dtype:" + dt)
+            world.ctx.count("update_layout:" + lay)
+            mp = {c: vals}
+        elif v == "list_values":
+            c = rng.choice(plain)
+            mp = {c: values(rng, shape).tolist()}
+        elif v == "same_size_other_shape":
+            c = rng.choice(plain)
+            mp = {c: values(rng, same_size_other_shape(shape))}
+            return Op("update_components", v, m, lambda: d.update_components(mp), expect="raise", ledger={"numerical": "no"},
+                      desc=labels(mp))
         elif v == "two_by_id":
             c1, c2 = rng.sample(plain, 2)
             mp = {c1: values(rng, shape), c2: values(rng, shape, "int")}
@@ -1082,6 +1225,9 @@ def gen_op(world, rng, allow_hostile=True):
     if kind == "refresh":
         return gen_refresh(world, rng, m, allow_hostile)
     raise ValueError(kind)
+
+
+SAME_KIND_BLOCKS = ["add", "remove", "rename", "reorder", "add_derived", "update_components", "update_id", "coords"]
 
 
 def _is_plain_numeric(d, c):
@@ -1280,21 +1426,29 @@ def run_history(ctx, mode, start, length, allow_hostile):
             raise Stop()
     if world.rec is not None:
         world.rec.log[:] = []
-    state = {"prev": "start", "changed": 0}
+    state = {"prev": "start", "changed": 0, "prev_outcome": "ok"}
     step = 0
     while step < length:
-        composite = world.hub is not None and rng.random() < 0.12
+        composite = world.hub is not None and rng.random() < 0.14
         before = {m.name: Snap(m) for m in world.models}
         done = []          # (op, outcome, ret, exc, snapshot of op's dataset before the call)
         problems = 0
+        reacted = []
         if composite:
             # several calls inside one delay block: one announcement unit, the invariants are evaluated after every call
             n = rng.randint(2, 3)
+            same_kind, same_m = None, None
+            if rng.random() < 0.45:
+                # the same kind of structural change several times in one block: each one must be announced
+                same_kind, same_m = rng.choice(SAME_KIND_BLOCKS), rng.choice(world.models)
+                n = rng.randint(2, 4)
+                ctx.count("delay_blocks_same_kind:" + same_kind)
+            world.rec.in_block = True
             cm = world.hub.delay_callbacks()
             cm.__enter__()
             try:
                 for k in range(n):
-                    op = gen_op(world, rng, allow_hostile)
+                    op = gen_op(world, rng, allow_hostile, force_kind=same_kind, force_m=same_m)
                     done.append((op,) + execute(ctx, world, op, trace))
                     if not _only_nonstructural(world.rec.log):
                         ctx.violation({"kind": "message_delivered_inside_delay_block", "op": op.kind}, {"trace": trace[-6:]})
@@ -1304,16 +1458,32 @@ def run_history(ctx, mode, start, length, allow_hostile):
                         break
             finally:
                 cm.__exit__(None, None, None)
+                world.rec.in_block = False
             ctx.count("delay_blocks")
         else:
             op = gen_op(world, rng, allow_hostile)
+            if world.reactor is not None and rng.random() < 0.10:
+                # re-entrancy: a listener that calls back into the dataset while the "component added" message is delivered
+                world.reactor.arm(rng.choice(["rename", "remove", "add_derived", "read", "rename", "add_derived"]), op.m)
             done.append((op,) + execute(ctx, world, op, trace))
+            if world.reactor is not None:
+                reacted = world.reactor.disarm()
+                for what in reacted:
+                    ctx.count("reentrant_reaction:" + what[0])
+                    trace.append(["(listener)", what[0], labels(what[1:2])])
         msgs = list(world.rec.log) if world.rec is not None else []
         if world.rec is not None:
             world.rec.log[:] = []
         step += len(done)
+        if world.rec is not None and world.rec.early:
+            for what, lab_ in world.rec.early[:3]:
+                ctx.violation({"kind": what, "op": done[-1][0].kind, "variant": done[-1][0].variant},
+                              {"mode": mode, "trace": trace[-8:], "component": lab_})
+                problems += 1
+            world.rec.early[:] = []
         if not composite:
-            problems += check_state(ctx, world, done[0], trace, mode, start, state, composite=False)
+            problems += check_state(ctx, world, done[0], trace, mode, start, state, composite=False, skip_semantics=bool(reacted))
+        ledger_composite = composite or bool(reacted)
         # ---- (L1) announcement ledger over the whole unit
         if composite and any(x[0].variant == "onto_existing" for x in done):
             # the slot semantics of re-identifying onto an identifier added in the same block are not defined
@@ -1321,7 +1491,14 @@ def run_history(ctx, mode, start, length, allow_hostile):
         elif world.rec is not None and not problems:
             expect = {}
             for op, outcome, ret, exc, b_op in done:
-                e = expect.setdefault(op.m.name, {"rename": [], "numerical": "no", "replaced": []})
+                e = expect.setdefault(op.m.name, {"rename": [], "numerical": "no", "replaced": [], "n_reorders": 0, "n_numerical_min": 0})
+                if op.kind == "reorder" and outcome == "ok":
+                    sb = [c for c in b_op.comps if is_in(c, op.after_comps)]
+                    sa = [c for c in op.after_comps if is_in(c, b_op.comps)]
+                    if ids(sb) != ids(sa):
+                        e["n_reorders"] += 1
+                if outcome == "ok" and op.ledger.get("numerical") == "yes":
+                    e["n_numerical_min"] += 1
                 led = op.ledger
                 ren = list(led.get("rename", []))
                 nx = led.get("numerical", "no")
@@ -1336,19 +1513,27 @@ def run_history(ctx, mode, start, length, allow_hostile):
                     e["numerical"] = "yes" if "any" not in (nx, e["numerical"]) else "any"
                 elif order[nx] == 1 or order[e["numerical"]] == 1:
                     e["numerical"] = "any"
-                if composite or rep is None or e["replaced"] is None:
+                if ledger_composite or rep is None or e["replaced"] is None:
                     e["replaced"] = None
                 else:
                     e["replaced"] = e["replaced"] + list(rep)
-                if "numerical_keys" in led and not composite and outcome == "ok":
+                if "numerical_keys" in led and not ledger_composite and outcome == "ok":
                     e["numerical_keys"] = led["numerical_keys"]
-            probs = ledger(world, [x[0].m for x in done], before, msgs, expect, composite)
+            for what in reacted:
+                # what the listener did belongs to the same announcement unit
+                mm = what[-1]
+                e = expect.setdefault(mm.name, {"rename": [], "numerical": "no", "replaced": None, "n_reorders": 0, "n_numerical_min": 0})
+                if what[0] == "rename":
+                    e["rename"].append((what[1], "yes"))
+            probs = ledger(world, [x[0].m for x in done], before, msgs, expect, ledger_composite)
             ctx.count("ledger_checks")
             op0 = done[0][0]
             for kind, extra, detail in probs:
                 sig = {"kind": kind, "op": "delay_block" if composite else op0.kind,
                        "variant": "+".join(sorted(set(x[0].kind for x in done))) if composite else op0.variant,
                        "outcome": "composite" if composite else done[0][1]}
+                if reacted:
+                    sig["reentrant_listener"] = reacted[0][0]
                 if not composite:
                     sig.update(op0.sigx)
                 sig.update(extra)
@@ -1365,10 +1550,18 @@ def run_history(ctx, mode, start, length, allow_hostile):
         ctx.sample({"mode": mode, "start": start, "trace": trace[:14]})
 
 
-def check_state(ctx, world, rec, trace, mode, start, state, composite):
+def check_state(ctx, world, rec, trace, mode, start, state, composite, skip_semantics=False):
     """(L2) + (I) after one call; returns the number of problems reported."""
     op, outcome, ret, exc, b_op = rec
-    problems = check_semantics(ctx, world, op, outcome, ret, exc, b_op, trace)
+    if skip_semantics:
+        ctx.count("semantic_check_skipped_listener_changed_the_dataset")
+        problems = 0
+    else:
+        problems = check_semantics(ctx, world, op, outcome, ret, exc, b_op, trace)
+    if state.get("prev_outcome") == "raised" and outcome == "ok":
+        ctx.count("ok_call_right_after_rejected_call")
+        ctx.count("ok_call_right_after_rejected_call:" + op.kind)
+    state["prev_outcome"] = outcome
     for m in world.models:
         # a sibling that this dataset borrowed objects from and that changed shape since
         if m.aliased_to is not None and tuple(m.aliased_to.d.shape) != tuple(m.d.shape):
@@ -1400,6 +1593,7 @@ def execute(ctx, world, op, trace):
     except Exception as e:   # classified below; glue may reject invalid arguments any way it likes
         ret, outcome, exc = None, "raised", e
     trace.append([op.m.name, op.kind, op.variant, outcome if exc is None else "raised:" + type(exc).__name__, ctx_json(op.desc)])
+    op.after_comps = list(op.m.d.components)
     # the documented outcome is computed from the harness model as it was before the call
     op.want = op.after(b, ret) if (outcome == "ok" and op.after is not None and op.expect != "raise") else None
     if outcome == "ok" and op.post is not None:
@@ -1496,6 +1690,9 @@ def run_case(ctx, case):
             ctx.count("histories_completed")
         except Stop:
             ctx.count("histories_ended_by_violation")
+    for k, v in LOOKUP_CASES.items():
+        ctx.count("lookup_case:" + k, v)
+    LOOKUP_CASES.clear()
 
 
 FLOOR_KINDS = ["add", "add_derived", "remove", "reorder", "rename", "update_id", "update_components", "refresh", "coords", "label"]
@@ -1520,4 +1717,23 @@ def floors(counters, tier):
             out.append("fewer than 50 histories in mode %s" % mode)
     if counters.get("delay_blocks", 0) < 20:
         out.append("fewer than 20 delay blocks")
+    for k in SAME_KIND_BLOCKS:
+        if counters.get("delay_blocks_same_kind:" + k, 0) < 8:
+            out.append("fewer than 8 delay blocks repeating the call kind %s" % k)
+    if counters.get("removal_cascade_depth:3+:hub", 0) < 5:
+        out.append("fewer than 5 removals with a cascade three levels deep on a dataset attached to a hub")
+    if sum(v for k, v in counters.items() if k.startswith("reentrant_reaction:")) < 15:
+        out.append("fewer than 15 steps with a re-entrant listener")
+    for k, n in (("variant:add:same_size_other_shape:raised", 20), ("variant:update_components:same_size_other_shape:raised", 15),
+                 ("variant:reorder:foreign_same_label:raised", 10), ("variant:reorder:repeated_id_longer:raised", 10),
+                 ("variant:add:readd_removed_cid:ok", 5), ("variant:remove:removed_again:ok", 5),
+                 ("lookup_case:repeated_label:main1_derived1_coord0", 15), ("lookup_case:repeated_label:main0_derived1_coord1", 10),
+                 ("lookup_case:repeated_label:main2_derived0_coord0", 100), ("lookup_case:near_miss_probe", 5000),
+                 ("ok_call_right_after_rejected_call", 200)):
+        if counters.get(k, 0) < n:
+            out.append("%s observed fewer than %d times" % (k, n))
+    if sum(v for k, v in counters.items() if k.startswith("add_layout:") and not k.endswith("contiguous")) < 40:
+        out.append("fewer than 40 components added from non-contiguous / broadcast arrays")
+    if sum(v for k, v in counters.items() if k.startswith("start:") and ":" in k[6:]) < 40:
+        out.append("fewer than 40 histories from the extreme start states (no rows, zero-length axis, single element, long, wide)")
     return out
